@@ -29,13 +29,15 @@ Definition ref_okb (c : comp) (before : list (string * sup)) (x : ref) : bool :=
 Definition sup_okb (c : comp) (before : list (string * sup)) (s : sup) : bool :=
   forallb (ref_okb c before) (s_seqs s) &&
   brefs_eqb (s_base s) (flat_map (ref_base c) (s_seqs s)) &&
-  Nat.eqb (s_len s) (List.length (flatB c (s_base s))).
+  Nat.eqb (s_len s) (List.length (flatB c (s_base s))) &&
+  forallb (fun x => ahas (c_bases c) (fst x)) (s_base s).
 Lemma sup_okb_sound c before s : sup_okb c before s = true -> sup_ok c before s.
-Proof. unfold sup_okb. intros H. apply andb_prop in H. destruct H as [H H3]. apply andb_prop in H. destruct H as [H1 H2].
+Proof. unfold sup_okb. intros H. apply andb_prop in H. destruct H as [H H4]. apply andb_prop in H. destruct H as [H H3]. apply andb_prop in H. destruct H as [H1 H2].
   constructor.
   - intros x Hx. rewrite forallb_forall in H1. specialize (H1 x Hx). destruct x; exact H1.
   - apply brefs_eqb_eq, H2.
-  - apply Nat.eqb_eq, H3. Qed.
+  - apply Nat.eqb_eq, H3.
+  - intros x Hx. rewrite forallb_forall in H4. apply H4, Hx. Qed.
 
 Fixpoint check_sups (c : comp) (pre rest : list (string * sup)) : bool :=
   match rest with
